@@ -5,7 +5,7 @@
 // fresh proxy (default configuration). The case line is
 //
 //   C12 <method> p=<rawpath hex> q=<rawquery hex|-> h=<hdrs> b=<body hex> ds=<status>:<body hex>:<hdr hex>
-//       f=<failing rpcs|-> pc=<hex> rc=<hex> pins=<..|-> np=<n> gc=<..|-> or=<oracles|-> ing=<n> xp=<hex>
+//       f=<failing rpcs|-> pc=<hex> rc=<hex> pins=<..|-> np=<n> gc=<..|-> or=<oracles|-> ing=<n> xp=<hex> dx=<cmd|->
 //       => st=<n> se=<0|1> rb=<hex> dh=<hex> it=<items|-> d=<daemon requests|-> r=<rpc calls|->
 //
 // (grammar in lean/Driver/C12.lean). The harness does not know which requests
@@ -31,6 +31,7 @@ import (
 	"net/textproto"
 	"net/url"
 	"os"
+	"runtime"
 	"sort"
 	"strconv"
 	"strings"
@@ -41,6 +42,8 @@ import (
 	"github.com/ipfs/ipfs-cluster/api/ipfsproxy"
 
 	cid "github.com/ipfs/go-cid"
+	cmds "github.com/ipfs/go-ipfs-cmds"
+	cmdshttp "github.com/ipfs/go-ipfs-cmds/http"
 	chunker "github.com/ipfs/go-ipfs-chunker"
 	files "github.com/ipfs/go-ipfs-files"
 	merkledag "github.com/ipfs/go-merkledag"
@@ -175,6 +178,11 @@ func (d *daemon) ServeHTTP(w http.ResponseWriter, r *http.Request) {
 	if c == nil {
 		w.WriteHeader(500)
 		return
+	}
+	if r.Method == http.MethodOptions || (r.Method == http.MethodPost && len(body) == 0 && r.ContentLength == 0) {
+		// setHeaders never closes the body of the answers to its two helper requests, so each hijacked request
+		// would pin two daemon connections for ever; the fake hangs up after such answers to keep the run small
+		w.Header().Set("Connection", "close")
 	}
 	w.Header().Set("X-Daemon-Hdr", c.dHdr)
 	w.Header().Set("Content-Type", "application/octet-stream")
@@ -442,6 +450,35 @@ func wire(c *tcase) []byte {
 	for _, h := range c.hdrs {
 		b.WriteString(h.k + ": " + h.v + "\r\n")
 	}
+	chunked := false
+	for _, h := range c.hdrs {
+		if h.k == "X-C12-Chunked" {
+			chunked = true
+		}
+	}
+	if chunked {
+		// the same body, framed in chunks of the size the header names
+		b.WriteString("Transfer-Encoding: chunked\r\n\r\n")
+		size := 7
+		for _, h := range c.hdrs {
+			if h.k == "X-C12-Chunked" {
+				if v, err := strconv.Atoi(h.v); err == nil && v > 0 {
+					size = v
+				}
+			}
+		}
+		for off := 0; off < len(c.body); off += size {
+			end := off + size
+			if end > len(c.body) {
+				end = len(c.body)
+			}
+			fmt.Fprintf(&b, "%x\r\n", end-off)
+			b.Write(c.body[off:end])
+			b.WriteString("\r\n")
+		}
+		b.WriteString("0\r\n\r\n")
+		return b.Bytes()
+	}
 	if len(c.body) > 0 || c.method == "POST" || c.method == "PUT" || c.method == "PATCH" {
 		b.WriteString("Content-Length: " + strconv.Itoa(len(c.body)) + "\r\n")
 	}
@@ -685,6 +722,70 @@ func ingest(c *tcase) int {
 }
 
 // ---------------------------------------------------------------------------
+// how would an IPFS daemon interpret the request? (informational: names the near misses of the hijacked
+// endpoints that a daemon built on the go-ipfs-cmds version ipfs-cluster links would execute)
+
+var (
+	stubRan  string
+	stubOnce sync.Once
+	stubMux  *http.ServeMux
+)
+
+func stubLeaf(name string, args ...cmds.Argument) *cmds.Command {
+	return &cmds.Command{
+		Arguments: args,
+		Run: func(req *cmds.Request, re cmds.ResponseEmitter, env cmds.Environment) error {
+			stubRan = name
+			return nil
+		},
+	}
+}
+
+func daemonWouldRun(c *tcase) (res string) {
+	defer func() {
+		if r := recover(); r != nil {
+			res = "panic"
+		}
+	}()
+	stubOnce.Do(func() {
+		root := &cmds.Command{Subcommands: map[string]*cmds.Command{
+			"pin": {Subcommands: map[string]*cmds.Command{
+				"add":    stubLeaf("pin/add", cmds.StringArg("ipfs-path", true, true, "")),
+				"rm":     stubLeaf("pin/rm", cmds.StringArg("ipfs-path", true, true, "")),
+				"ls":     stubLeaf("pin/ls", cmds.StringArg("ipfs-path", false, true, "")),
+				"update": stubLeaf("pin/update", cmds.StringArg("from-path", true, false, ""), cmds.StringArg("to-path", true, false, "")),
+			}},
+			"add": stubLeaf("add", cmds.FileArg("path", true, true, "")),
+			"repo": {Subcommands: map[string]*cmds.Command{
+				"stat": stubLeaf("repo/stat"),
+				"gc":   stubLeaf("repo/gc"),
+			}},
+		}}
+		cfg := cmdshttp.NewServerConfig()
+		cfg.APIPath = "/api/v0"
+		stubMux = http.NewServeMux()
+		stubMux.Handle("/api/v0/", cmdshttp.NewHandler(nil, root, cfg))
+	})
+	req, err := http.ReadRequest(bufio.NewReader(bytes.NewReader(wire(c))))
+	if err != nil {
+		return "-"
+	}
+	stubRan = ""
+	rec := &nullWriter{h: http.Header{}}
+	stubMux.ServeHTTP(rec, req)
+	if stubRan == "" {
+		return "-"
+	}
+	return stubRan
+}
+
+type nullWriter struct{ h http.Header }
+
+func (n *nullWriter) Header() http.Header       { return n.h }
+func (n *nullWriter) Write(b []byte) (int, error) { return len(b), nil }
+func (n *nullWriter) WriteHeader(int)             {}
+
+// ---------------------------------------------------------------------------
 // printing
 
 func inputTokens(c *tcase) string {
@@ -692,10 +793,10 @@ func inputTokens(c *tcase) string {
 	if len(c.fails) > 0 {
 		f = strings.Join(c.fails, ",")
 	}
-	return fmt.Sprintf("%s p=%s q=%s h=%s b=%s ds=%d:%s:%s f=%s pc=%s rc=%s pins=%s np=%d gc=%s or=%s ing=%d xp=%s",
+	return fmt.Sprintf("%s p=%s q=%s h=%s b=%s ds=%d:%s:%s f=%s pc=%s rc=%s pins=%s np=%d gc=%s or=%s ing=%d xp=%s dx=%s",
 		c.method, hxs(c.path), qTok(c.query), hdrTok(c.hdrs), hx(c.body), c.dStatus, hx(c.dBody), hxs(c.dHdr), f,
 		hxs(c.pinCid), hxs(c.resCid), hxList(c.pins), c.npeers, hxList(c.gcKeys), oracles(c), ingest(c),
-		hxs(ipfsproxy.DefaultExtractHeadersPath))
+		hxs(ipfsproxy.DefaultExtractHeadersPath), daemonWouldRun(c))
 }
 
 func outputTokens(o observation) string {
@@ -831,11 +932,13 @@ func parseLine(line string) (*tcase, error) {
 			c.resCid, err = unhex(v)
 		case "pins":
 			c.pins, err = parseHexList(v)
+			sort.Strings(c.pins) // convention: scripted lists are given in the order the answers are canonicalised to
 		case "np":
 			c.npeers, err = strconv.Atoi(v)
 		case "gc":
 			c.gcKeys, err = parseHexList(v)
-		case "or", "ing", "xp":
+			sort.Strings(c.gcKeys)
+		case "or", "ing", "xp", "dx":
 			// recomputed
 		default:
 			return nil, errors.New("unknown token " + k)
@@ -1063,13 +1166,13 @@ func multipartBody(r *common.Rng, kind int) ([]byte, string) {
 	return body, ct
 }
 
-var boolVals = []string{"true", "false", "1", "0", "t", "T", "TRUE", "False", "yes", "", "x"}
+var boolVals = []string{"true", "false", "true", "false", "1", "0", "t", "T", "TRUE", "False", "true", "false", "", "yes", "true", "false"}
 
 func genAdd(r *common.Rng, c *tcase) {
-	kind := []int{0, 0, 0, 0, 1, 1, 2, 3}[r.Intn(8)]
+	kind := []int{0, 0, 0, 0, 0, 0, 0, 1, 1, 1, 2, 3}[r.Intn(12)]
 	body, ct := multipartBody(r, kind)
 	c.body = body
-	switch r.Intn(12) {
+	switch r.Intn(24) {
 	case 0:
 		c.hdrs = stdHdrs(r) // no content type
 	case 1:
@@ -1087,29 +1190,29 @@ func genAdd(r *common.Rng, c *tcase) {
 			q = append(q, kv{k, pick(r, vals)})
 		}
 	}
-	opt(1, 4, "only-hash", "true", "true", "false", "1", "TRUE", "")
+	opt(1, 6, "only-hash", "true", "true", "false", "false", "1", "TRUE", "")
 	opt(1, 3, "pin", "false", "false", "true", "0", "False", "")
-	opt(1, 4, "layout", "trickle", "balanced", "", "bogus")
+	opt(1, 4, "layout", "trickle", "balanced", "trickle", "balanced", "", "bogus")
 	opt(1, 8, "trickle", "true", "false")
-	opt(1, 4, "chunker", "size-64", "size-1024", "size-262144", "size-0", "bogus-chunker", "")
+	opt(1, 4, "chunker", "size-64", "size-1024", "size-262144", "size-64", "size-32", "size-0", "bogus-chunker", "")
 	opt(1, 4, "raw-leaves", boolVals...)
 	opt(1, 6, "hidden", boolVals...)
 	opt(1, 4, "wrap-with-directory", boolVals...)
 	opt(1, 6, "progress", boolVals...)
 	opt(1, 8, "quiet", "true", "false")
 	opt(1, 8, "silent", "true")
-	opt(1, 3, "stream-channels", "true", "false", "false", "0", "1", "x", "")
-	opt(1, 5, "cid-version", "0", "1", "2", "x", "")
-	opt(1, 8, "hash", "sha2-256", "bogus-hash", "")
+	opt(1, 3, "stream-channels", "true", "false", "false", "false", "0", "1", "x", "")
+	opt(1, 5, "cid-version", "0", "1", "1", "0", "2", "x", "")
+	opt(1, 10, "hash", "sha2-256", "sha2-256", "bogus-hash", "")
 	opt(1, 4, "name", "myname", "a+b", "n%20m", "")
-	opt(1, 5, "replication-min", "-1", "1", "2", "x", "+3", "")
-	opt(1, 5, "replication-max", "-1", "1", "3", "1.5", "")
+	opt(1, 5, "replication-min", "-1", "1", "2", "0", "x", "+3", "")
+	opt(1, 5, "replication-max", "-1", "1", "3", "5", "1.5", "")
 	opt(1, 10, "replication", "2", "-1", "zz")
 	opt(1, 8, "local", boolVals...)
 	opt(1, 10, "recursive", boolVals...)
-	opt(1, 8, "format", "", "unixfs", "car", "zip")
+	opt(1, 10, "format", "", "unixfs", "unixfs", "zip")
 	opt(1, 10, "shard", "false", "0", "x", "")
-	opt(1, 12, "shard-size", "1000000", "-5", "abc")
+	opt(1, 12, "shard-size", "1000000", "1000000", "-5", "abc")
 	opt(1, 14, "nocopy", "false", "x")
 	opt(1, 10, "arg", escArg(r, genArg(r), false))
 	// duplicates: first value wins
@@ -1316,7 +1419,53 @@ func genRelay(r *common.Rng, c *tcase, thorough bool) {
 	if len(c.body) > 0 && r.Chance(1, 2) {
 		extra = append(extra, hdr{"Content-Type", pick(r, []string{"application/json", "multipart/form-data; boundary=xyz", "text/plain"})})
 	}
+	if len(c.body) > 0 && thorough && r.Chance(1, 6) {
+		extra = append(extra, hdr{"X-C12-Chunked", strconv.Itoa(1 + r.Intn(40))})
+	}
 	c.hdrs = stdHdrs(r, extra...)
+}
+
+// exhaustive small universe: every method x every path /api/v0/<s1>/../<sk> (k <= depth) over a vocabulary that
+// contains every word of the hijack table, a stranger, the empty segment and a CID
+var enumVocab = []string{"pin", "add", "rm", "ls", "update", "repo", "stat", "gc", "x", "", "\x00cid"}
+
+func enumCount(depth int) int {
+	n, pw := 0, 1
+	for d := 0; d <= depth; d++ {
+		n += pw
+		pw *= len(enumVocab)
+	}
+	return n * len(allMethods)
+}
+
+func enumCase(k int) *tcase {
+	c := &tcase{dStatus: 200, dBody: []byte("daemon says hi"), dHdr: "denum", pinCid: cidStr(1), resCid: cidStr(2),
+		pins: []string{cidStr(3)}, npeers: 2, gcKeys: []string{cidStr(4)}}
+	c.method = allMethods[k%len(allMethods)]
+	k /= len(allMethods)
+	depth, pw := 0, 1
+	for k >= pw {
+		k -= pw
+		pw *= len(enumVocab)
+		depth++
+	}
+	path := "/api/v0"
+	for d := 0; d < depth; d++ {
+		w := enumVocab[k%len(enumVocab)]
+		k /= len(enumVocab)
+		if w == "\x00cid" {
+			w = cidStr(5)
+		}
+		path += "/" + w
+	}
+	c.path = path
+	q := "arg=" + cidStr(6) + "&arg=" + cidStr(7)
+	c.query = &q
+	r := common.NewRng(uint64(k) + 99)
+	body, ct := multipartBody(r, 0)
+	c.body = body
+	c.hdrs = []hdr{{"Accept-Encoding", "identity"}, {"Content-Type", ct}}
+	return c
 }
 
 // near misses of the hijacked endpoints
@@ -1453,12 +1602,30 @@ func main() {
 	if n < 0 {
 		n = 500
 	}
+	// the first cases are the exhaustive small universe (depth 2 quick, 3 thorough), as far as n/2 allows
+	enum := enumCount(2)
+	if args.Tier == "thorough" {
+		enum = enumCount(3)
+	}
+	if enum > n/2 {
+		enum = n / 2
+	}
 	base := common.NewRng(common.Seed())
 	for k := 0; k < n; k++ {
 		if args.Only >= 0 && k != args.Only {
 			continue
 		}
-		c := gen(base.Fork(uint64(k)), args.Tier == "thorough")
+		var c *tcase
+		if k < enum {
+			c = enumCase(k)
+		} else {
+			c = gen(base.Fork(uint64(k)), args.Tier == "thorough")
+		}
 		w.runCase(out, c)
+		if k%200 == 199 {
+			// finalise connections the proxy leaked (their response bodies are never closed)
+			http.DefaultTransport.(*http.Transport).CloseIdleConnections()
+			runtime.GC()
+		}
 	}
 }
